@@ -8,6 +8,14 @@ From TarpcV Require Import Base Schema Time Framing Hostile.
 Definition case := (hcfg * list hop * list (list hobs))%type.
 Definition rep (n b : N) : bytes := repeat b (N.to_nat n).
 Definition model (c : case) : list (list hobs) := let '(cf, ops, _) := c in fst (hrun cf std_env ops).
+(* bit 2 (value 4): the monitor's rejection is of the recorded class "a stream cut exactly after
+   a 4-byte length header ends cleanly" (KNOWN_FINDINGS: eof-after-length-header): the trace is
+   accepted once that clean end is read as an error.  Other rejections are shrunk first. *)
+Definition as_error_end (tr : list (list hobs)) : list (list hobs) :=
+  map (map (fun o => match o with OEndClean => OEndErr | _ => o end)) tr.
 Definition check (c : case) : N :=
   let '(cf, ops, tr) := c in
-  verdict (list_eqb (list_eqb hobs_eqb) (fst (hrun cf std_env ops)) tr) (c16_ok cf std_env ops tr).
+  let ok := c16_ok cf std_env ops tr in
+  let known := negb ok && Nat.eqb (hcut cf) 4 &&
+               match mode cf with MStream => c16_ok cf std_env ops (as_error_end tr) | _ => false end in
+  (verdict (list_eqb (list_eqb hobs_eqb) (fst (hrun cf std_env ops)) tr) ok + (if known then 4 else 0))%N.
